@@ -156,6 +156,11 @@ class NodeParser(PushParser):
             Whether the binding process was successful.
         """
         item = queue.pop()
+        if not queue:
+            # The tail of the document element is not part of the document,
+            # the source can be a sub-element of a larger tree
+            tail = None
+
         return item.bind(qname, text, tail, objects)
 
     def find_root_clazz(
